@@ -203,8 +203,35 @@ def _splice(fd, gd, cb, cid):
         return copy.deepcopy(o)
     rets = []
     newblocks = []
+    # -O0 code has one 'return' block whose phi merges the values of all return statements.  Spliced as it is, the value of the
+    # call would be a phi of a phi and the (predecessor, block) edge graph could not tell which return statement was taken; such
+    # a block (phi + ret of it, nothing else) is threaded: its predecessors branch to the continuation themselves.
+    def _succs(t):
+        out = list(t.get("succ", []) or []) + [x for _, x in (t.get("cases") or [])]
+        if "default" in t:
+            out.append(t["default"])
+        return out
+    gpreds = {}
     for b in gd["blocks"]:
+        for x in _succs(b["insts"][-1]):
+            gpreds.setdefault(x, []).append(b["id"])
+    thread = {}
+    used = set()
+    for b in gd["blocks"]:
+        ii = b["insts"]
+        if len(ii) == 2 and ii[0]["o"] == "phi" and ii[1]["o"] == "ret" and ii[1].get("a") and ii[1]["a"][0] == ii[0]["i"] \
+                and b["id"] != gd["blocks"][0]["id"]:
+            ps = [pb for (_, pb) in ii[0]["inc"]]
+            if len(set(ps)) == len(ps) and sorted(ps) == sorted(gpreds.get(b["id"], [])) and not (set(ps) & used):   # (sorted(): each predecessor reaches it once)
+                thread[b["id"]] = {pb: v for (v, pb) in ii[0]["inc"]}
+                used |= set(ps)
+    for b in gd["blocks"]:
+        if b["id"] in thread:
+            continue
         nb = {"id": bbase + b["id"], "insts": []}
+        tsucc = [x for x in _succs(b["insts"][-1]) if x in thread]
+        for x in tsucc:
+            rets.append((mapop(thread[x][b["id"]]), nb["id"]))
         for ins in b["insts"]:
             ni = copy.deepcopy(ins)
             ni["i"] = base + ins["i"]
@@ -217,11 +244,11 @@ def _splice(fd, gd, cb, cid):
             if ins.get("path"):
                 ni["path"] = [[st[0], mapop(st[1]), st[2]] if st[0] in ("p", "a") else list(st) for st in ins["path"]]
             if ins.get("succ"):
-                ni["succ"] = [bbase + x for x in ins["succ"]]
+                ni["succ"] = [cont_id if x in thread else bbase + x for x in ins["succ"]]
             if ins.get("cases"):
-                ni["cases"] = [[v, bbase + x] for (v, x) in ins["cases"]]
+                ni["cases"] = [[v, cont_id if x in thread else bbase + x] for (v, x) in ins["cases"]]
             if "default" in ins:
-                ni["default"] = bbase + ins["default"]
+                ni["default"] = cont_id if ins["default"] in thread else bbase + ins["default"]
             # debug file of the callee if different
             if "lf" not in ni and gd.get("file") != fd.get("file"):
                 ni["lf"] = gd.get("file")
